@@ -18,6 +18,9 @@ CONSTRUCTS = [
     ("predexplicit3", "P3 = RsV;"),
 ]
 DIRTY = "{ if (P0_NEW & 1) { P2 = RsV; P0 = RsV; mem_store_u8(RsV, mem_load_u8(RtV)); JUMP(RtV); } }"
+# predecessors that FAIL, each right after it has set an attribute flag and (some) before any operand was registered
+DIRTY_FAILING = ["{ G1_NEW = RsV; }", "{ JUMP(undefined_target_x); }", "{ mem_store_u8(undefined_addr_x, 1); }", "{ RdV = OdN; }", "{ if (undefined_cond_x) { } }",
+                 "{ P1 = undefined_val_x; }", "{ RdV = mem_load_u8(undefined_addr_x); }", "{ RdV = PzN + undefined_y; }", "{ S3_NEW = 1; }", "{ P0_NEW = undefined_q(); }"]
 
 
 def three_event_harness():
@@ -55,10 +58,13 @@ def _attr_prog(item):
     from ..cref import attributes_of
     texts = item
     c = corpus.compiler()
-    try:
-        c.compile_c_stmt(DIRTY)
-    except Exception:  # noqa
-        pass
+    import zlib
+    k = zlib.crc32(" ".join(texts).encode()) % (len(DIRTY_FAILING) + 2)
+    for pre in ([DIRTY] if k >= len(DIRTY_FAILING) else [DIRTY, DIRTY_FAILING[k]]):
+        try:
+            c.compile_c_stmt(pre)
+        except Exception:  # noqa
+            pass
     try:
         asts = [corpus.parse_stmt(t) for t in texts]
         r = c.transform_insn("vf_attr_test", ParsedInsn("vf_attr_test", asts, list(texts)))
